@@ -40,12 +40,12 @@ Print Assumptions C17_nesting_kept_plain.
         ENTRY f; READ_k1 v1 .. READ_kn vn; <callees>; DIFF_k1 (w1-v1) .. DIFF_kn (wn-vn); EXIT f
      (vi / wi the readings at its entry / exit hook, differences per field mod 2^64, events stamped
      with the ENTRY / EXIT time), a call that is not recorded contributes nothing.
-   Guard [all_xtimed]: time stamps below 2^64, and a call with a read= trigger takes at least one clock
-   tick (see C17_zero_duration_refuted), and the argument data captured for a call (any -A specification; its
+   Guard [all_xtimed]: time stamps below 2^64 and not decreasing (zero-duration calls included, see
+   C17_zero_duration_example), and the argument data captured for a call (any -A specification; its
    size is an input of the entry hook) is at most 684 bytes, i.e. leaves room for all ten events a frame can
    get (exact: C17_asz_bound_exact; beyond it C17_read_without_diff_refuted).  No watch points. *)
 Theorem C17_read_diff : forall thr gd ms sh rd pm f,
-  all_xtimed thr gd ms sh rd pm f -> heights (map strip f) <= ms ->
+  all_xtimed f -> heights (map strip f) <= ms ->
   xout (snd (xexec (xplain thr gd ms sh rd pm) (flat_map xflat f) xstart)) =
   flat_map (xrecs (xplain thr gd ms sh rd pm) thr gd 0) f.
 Proof. exact xrun_forest. Qed.
@@ -73,15 +73,23 @@ Theorem C17_read_event_times_inside : forall C thr gd f, all_ordered f ->
 Proof. exact read_event_times. Qed.
 Print Assumptions C17_read_event_times_inside.
 
-(* FALSE for a recorded call of zero duration (reachable with the `trace` trigger when two clock readings
-   coincide): every event of the frame is emitted by both passes (known finding zero-duration-events-twice) *)
-Theorem C17_zero_duration_refuted :
+(* a recorded call of zero duration (two clock readings coincide; always recorded, the threshold test being >=):
+   every event appears once, the reads after ENTRY and the differences before EXIT (part of C17_read_diff, whose
+   guard no longer asks for a clock tick; here a concrete run) *)
+Theorem C17_zero_duration_example :
   map (fun i => match i with IR r => (0, r_time r) | IE e => (e_id e, e_time e) end)
       (xout (snd (xexec zero_cfg [XEnter 0 100 (o_pf_only 5); XLeave 100 (o_pf_only 9)] xstart))) =
-  [(0, 100); (EVENT_ID_READ_PAGE_FAULT, 100); (EVENT_ID_DIFF_PAGE_FAULT, 100);
-   (EVENT_ID_READ_PAGE_FAULT, 100); (EVENT_ID_DIFF_PAGE_FAULT, 100); (0, 100)].
-Proof. exact zero_duration_read_twice_refuted. Qed.
-Print Assumptions C17_zero_duration_refuted.
+  [(0, 100); (EVENT_ID_READ_PAGE_FAULT, 100); (EVENT_ID_DIFF_PAGE_FAULT, 100); (0, 100)].
+Proof. exact zero_duration_read_once. Qed.
+Print Assumptions C17_zero_duration_example.
+
+(* before 491a61f both passes of record_ret_stack selected the frame's events by time stamp alone: for a call of
+   zero duration each of them emitted ALL events of the frame, i.e. every event twice *)
+Theorem C17_zero_duration_legacy_refuted : forall C a t o0 o1,
+  let evs := reads C a t o0 ++ diffs C a t o0 o1 in
+  legacy_entry_events t evs = evs /\ legacy_exit_events t evs = evs.
+Proof. exact zero_duration_legacy_refuted. Qed.
+Print Assumptions C17_zero_duration_legacy_refuted.
 
 (* ------------------------------------------------------------------ watch points *)
 (* -W cpu: for every sequence of observations, with the pending queue drained between the hooks, the
@@ -349,6 +357,34 @@ Theorem C17_all_events_fit :
        (EVTBUF_HDR + SIZEOF_PMU_CACHE) + (EVTBUF_HDR + SIZEOF_PMU_BRANCH)) <= C17_ARGBUF_SIZE.
 Proof. exact all_events_fit. Qed.
 Print Assumptions C17_all_events_fit.
+
+(* ------------------------------------------------------------------ the reader side: depth limits at analysis time *)
+(* For EVERY recorded call tree with events anywhere in it, every -D N and every set of depth=N triggers given to
+   replay / dump / report / graph: the depth filter of utils/fstack.c shows exactly [rvis]: a function iff the
+   depth budget lets it (a depth= trigger opens a new budget), an event iff the innermost function around it is
+   shown - under that function; events of functions beyond the limit vanish with them; the filter state after a
+   call is the state before it *)
+Theorem C17_reader_depth : forall c t b stk,
+  rrun false c (rflat t) (b, stk) = ((b, stk), rvis c (top_shown (b, stk)) b t).
+Proof. exact reader_depth. Qed.
+Print Assumptions C17_reader_depth.
+
+Theorem C17_reader_depth_recording : forall c ts,
+  snd (rrun false c (flat_map rflat ts) (rgdepth c, [])) = flat_map (rvis c (0 <? rgdepth c)%Z (rgdepth c)) ts.
+Proof. exact reader_depth_top. Qed.
+Print Assumptions C17_reader_depth_recording.
+
+(* main { alpha { e1; beta { e2 }; e3 } } with -D 2: alpha keeps e1 and e3, beta and e2 are gone ... *)
+Theorem C17_reader_depth_example :
+  snd (rrun false rd_cfg (rflat rd_tree) (2%Z, [])) = [RE 0; RE 1; REV 1; REV 3; RX 1; RX 0].
+Proof. exact reader_depth_example. Qed.
+Print Assumptions C17_reader_depth_example.
+
+(* ... before 9a6dfe6 the deepest function shown lost its events (shown iff filter.depth > 0) *)
+Theorem C17_reader_depth_legacy_refuted :
+  snd (rrun true rd_cfg (rflat rd_tree) (2%Z, [])) = [RE 0; RE 1; RX 1; RX 0].
+Proof. exact reader_depth_legacy_refuted. Qed.
+Print Assumptions C17_reader_depth_legacy_refuted.
 
 (* the model's constants are those of the current source *)
 Theorem C17_layout_sanity :
